@@ -307,7 +307,7 @@ func genCase(r *vh.Rng) Case {
 			}
 		}
 	}
-	if externallyManaged(&c) && kindDraw >= 50 {
+	if resolverPaginates(&c) && kindDraw >= 50 {
 		kindDraw -= 50 // walks follow thunder's page info; a resolver's own page info is checked per page
 	}
 	switch k := kindDraw; {
